@@ -592,6 +592,15 @@ func TestC20(t *testing.T) {
 	if !hx.SelfTest() {
 		errD = partConcurrent(res, scratch, groups, rnd)
 	}
+	// E, F
+	if !hx.SelfTest() {
+		if err := partUser(res, scratch); err != nil && errD == nil {
+			errD = err
+		}
+		if err := partRewriteExcept(res, scratch); err != nil && errD == nil {
+			errD = err
+		}
+	}
 
 	res.Replayed = res.Evaluations
 	r.DriftReport()
